@@ -48,6 +48,12 @@ types, assume_specifications, spec functions, lemmas):
                                       `(match X { Some(p) => EXPR, None => None })` (std: Option::map_or)
   //@thunk <closure text> | <name> | <generics> | <turbofish> | <ret type>   (DESIGN 9.2 rule 21; contract with //@lift|) every occurrence of the argument-less closure
                                       `|| EXPR` (given literally) in the body becomes the fn item `<name><turbofish>`, emitted as `fn <name><generics>() -> (r: <ret>) { EXPR }`
+  //@liftdrainfilter <needle> | <name> | <elem type> | <extra locals>   (DESIGN 9.2 rule 22; //@lift| = contract of the lifted predicate, //@lift.inv| = loop invariant,
+                                      //@lift.pre| / //@lift.removed| / //@lift.kept| = ghost lines before the loop / in the two branches)
+                                      the statement `RECV.drain_filter(|PAT| { BODY });` (result dropped) becomes the loop smallvec documents: elements are tested front to
+                                      back, each exactly once; those for which the closure returns true are removed, the others keep their order.  The closure is lifted
+                                      into `fn <name>(verif_x: &Elem, <captures>) -> bool { let PAT = verif_x; BODY-statements }` (BODY byte-for-byte; `&` instead of the `&mut`
+                                      the closure receives - a closure that mutated the element would not compile here)
   //@okmap? <needle>                 (DESIGN 9.2 rule 15) the statement `E.ok().map(|p| CALL);` that starts with <needle> - value discarded - is read as
                                       `if let Ok(p) = E { CALL; }` (std: Result::ok + Option::map call the closure exactly when E is Ok, with its payload);
                                       skipped (recorded) when no such statement exists, e.g. because the code already uses `if let` / `let else`
@@ -550,6 +556,66 @@ def _thunk(body, closure_text, name, turbofish, fname):
     return ''.join(out), n
 
 
+def _lift_drain_filter(body, sig, needle, name, elem, extra, lf, fname, in_impl):
+    """Rule 22. Returns (new_body, [fn text], info)."""
+    rx = re.compile(r'\s*'.join(re.escape(tok) for tok in needle.split()))
+    start = None
+    for j, d in rc.code_positions(body):
+        if rx.match(body, j) and (j == 0 or not (body[j - 1].isalnum() or body[j - 1] == '_')):
+            start = j; break
+    if start is None:
+        raise CutError('fn %s: drain_filter statement not found: %s' % (fname, needle))
+    depth, end = 0, None
+    for k, d in rc.code_positions(body, start):
+        c = body[k]
+        if c in '([{': depth += 1
+        elif c in ')]}': depth -= 1
+        elif c == ';' and depth == 0:
+            end = k; break
+    stmt = body[start:end + 1]
+    m = re.match(r'(?s)\s*([A-Za-z_][A-Za-z0-9_.]*)\s*\.\s*drain_filter\s*\(\s*\|([^|]*)\|\s*\{', stmt)
+    if not m:
+        raise CutError('fn %s: statement is not `RECV.drain_filter(|PAT| { .. });`' % fname)
+    recv, pat = m.group(1), m.group(2).strip()
+    ob = m.end() - 1
+    cb = rc.match_close(stmt, ob)
+    if not re.match(r'(?s)\s*\)\s*;\s*$', stmt[cb + 1:]):
+        raise CutError('fn %s: drain_filter statement has text after the closure' % fname)
+    cbody = stmt[ob:cb + 1]
+    cands = []
+    so = sig.index('(')
+    sc = rc.match_close(sig, so, '(', ')')
+    for prm in _split_top(sig[so + 1:sc]):
+        if ':' in prm:
+            nm, ty = prm.split(':', 1)
+            nm = nm.strip()
+            if nm.startswith('mut '): nm = nm[4:].strip()
+            if re.match(r'^[A-Za-z_][A-Za-z0-9_]*$', nm):
+                cands.append((nm, ty.strip()))
+    for item in [x for x in extra.split(',') if x.strip()]:
+        nm, ty = item.split(':', 1)
+        cands.append((nm.strip(), ty.strip()))
+    bound = re.findall(r'[A-Za-z_][A-Za-z0-9_]*', pat)
+    caps = _free_captures(cbody, cands, bound)
+    prefix = 'Self::' if in_impl else ''
+    cparams = ''.join(', %s: %s' % c for c in caps)
+    cargs = ''.join(', %s' % c[0] for c in caps)
+    inner = cbody.strip()[1:-1]
+    pred = ('    pub fn %s(verif_x: &%s%s) -> (b: bool)\n%s\n    {\n        let %s = verif_x;%s    }'
+            % (name, elem, cparams, '\n'.join(lf['clauses']), pat, inner))
+    ind = '\n        '
+    loop = ('{ let mut verif_i: usize = 0;' + ind + ' '.join(lf.get('pre', [])) + ind
+            + 'while verif_i < %s.len()' % recv + ind
+            + '    invariant ' + ' '.join(x.strip() for x in lf.get('inv', [])) + ind
+            + '    decreases %s@.len() - verif_i,' % recv + ind + '{' + ind
+            + '    if %s%s(%s.verif_at(verif_i)%s) { let _ = %s.verif_remove(verif_i); %s }' % (prefix, name, recv, cargs, recv, ' '.join(lf.get('removed', []))) + ind
+            + '    else { verif_i += 1; %s }' % ' '.join(lf.get('kept', [])) + ind + '}' + ind + ' '.join(lf.get('after', [])) + ' }')
+    info = {'fn': fname, 'lifted': name, 'captures': ['%s: %s' % c for c in caps], 'closure_sha256': hashlib.sha256(cbody.encode()).hexdigest()[:16],
+            'statement_head': re.sub(r'\s+', ' ', stmt)[:100],
+            'assumed': 'smallvec drain_filter(f), result dropped: elements tested front to back, each once; removed iff f returns true; the others keep their order'}
+    return body[:start] + loop + body[end + 1:], [pred], info
+
+
 def _desugar_in_params(sig):
     """`In(pat) : In<T>` parameter => `verif_in : In<T>` + `let In(pat) = verif_in;` (Rust's own desugaring)."""
     lets = []
@@ -709,6 +775,17 @@ def expand(template_path, repo='/repo'):
                     mapdefaults.append((nd.strip(), [x.strip() for x in vs.split(',')]))
                 elif t.startswith('//@okmap'):
                     okmaps.append(t.split(None, 1)[1].strip())
+                elif t.startswith('//@liftdrainfilter'):
+                    nd, nm, el, extra = [x.strip() for x in t[len('//@liftdrainfilter'):].split('|', 3)]
+                    lifts.append({'kind': 'drainfilter', 'needle': nd, 'name': nm, 'elem': el, 'extra': extra, 'clauses': [], 'pre': [], 'post': [], 'inv': [], 'removed': [], 'kept': []})
+                elif t.startswith('//@lift.removed|'):
+                    lifts[-1]['removed'].append(t[len('//@lift.removed|'):].strip())
+                elif t.startswith('//@lift.after|'):
+                    lifts[-1].setdefault('after', []).append(t[len('//@lift.after|'):].strip())
+                elif t.startswith('//@lift.kept|'):
+                    lifts[-1]['kept'].append(t[len('//@lift.kept|'):].strip())
+                elif t.startswith('//@lift.pre|'):
+                    lifts[-1]['pre'].append(t[len('//@lift.pre|'):].strip())
                 elif t.startswith('//@liftposition'):
                     nd, nm, el, extra = [x.strip() for x in t[len('//@liftposition'):].split('|', 3)]
                     lifts.append({'kind': 'position', 'needle': nd, 'name': nm, 'elem': el, 'extra': extra, 'clauses': [], 'pre': [], 'post': [], 'pred': [], 'inv': []})
@@ -831,6 +908,13 @@ def expand(template_path, repo='/repo'):
                 body = body[:ob + 1] + '\n' + '\n'.join(loopbodies[ordinal]) + body[ob + 1:]
             body = _insert_loop_invariants(body, loops, name, loopvars)
             for lf in lifts:
+                if lf.get('kind') == 'drainfilter':
+                    body, texts, linfo = _lift_drain_filter(body, sig, lf['needle'], lf['name'], lf['elem'], lf['extra'], lf, name, anchor != '-')
+                    lifted_out += texts
+                    linfo['clauses'] = [c.strip() for c in lf['clauses']]
+                    linfo['file'] = f
+                    side.setdefault('lifted_closures', []).append(linfo)
+                    continue
                 if lf.get('kind') == 'thunk':
                     body, n_ = _thunk(body, lf['closure'], lf['name'], lf['turbofish'], name)
                     expr_ = lf['closure'].strip()[2:].strip()
